@@ -23,6 +23,17 @@ class ExtractHeader(FunctionSpec):
     def native_inputs(self, model):
         return {'frame_id_int': model['frame_id_int']}
 
+    def native_samples(self, tier):
+        import random
+        rnd = random.Random(5)
+        for dp in range(4):
+            for pf in (0, 1, 0xEA, 0xEE, 0xEF, 0xF0, 0xF1, 0xFF):
+                for ps in (0, 1, 0x23, 0xFF):
+                    for prio, src in ((0, 0), (7, 255), (3, 35)):
+                        yield {'frame_id_int': (prio << 26) | (dp << 24) | (pf << 16) | (ps << 8) | src}
+        for _ in range(20000 if tier == 'quick' else 400000):
+            yield {'frame_id_int': rnd.getrandbits(29)}
+
 
 class BuildHeader(FunctionSpec):
     func = 'encoder.NMEA2000Encoder._build_header'
@@ -41,3 +52,16 @@ class BuildHeader(FunctionSpec):
 
     def outcome(self, pgn_id, source, dest, priority):
         return [Return(S.build(pgn_id, source, dest, priority))]
+
+
+    def native_samples(self, tier):
+        import random
+        rnd = random.Random(6)
+        for dp in range(4):
+            for pf in (0, 1, 0xEA, 0xEE, 0xEF, 0xF0, 0xF1, 0xFF):
+                for ps in (0, 1, 0x23, 0xFF):
+                    for prio, src, dst in ((0, 0, 0), (7, 255, 255), (3, 35, 1), (6, 1, 0)):
+                        yield {'pgn_id': (dp << 16) | (pf << 8) | (ps if pf >= 240 else 0), 'source': src, 'dest': dst, 'priority': prio}
+        for _ in range(20000 if tier == 'quick' else 400000):
+            pf = rnd.getrandbits(8)
+            yield {'pgn_id': (rnd.getrandbits(2) << 16) | (pf << 8) | (rnd.getrandbits(8) if pf >= 240 else 0), 'source': rnd.getrandbits(8), 'dest': rnd.getrandbits(8), 'priority': rnd.getrandbits(3)}
